@@ -510,6 +510,8 @@
 //!
 
 #![forbid(unsafe_code)]
+// The verification shim wraps `Arc`; unsized coercion of the wrapper needs these.
+#![cfg_attr(cadence_verif, feature(coerce_unsized, unsize))]
 
 pub const DEFAULT_PORT: u16 = 8125;
 
